@@ -29,6 +29,10 @@ impl<'a> DeferredNow {
     ///
     /// Requires mutability because the first caller will generate the timestamp.
     pub fn now(&'a mut self) -> &'a DateTime<Local> {
+        #[cfg(flexi_logger_verif)]
+        if self.0.is_none() {
+            self.0 = crate::verif_hooks::now();
+        }
         self.0.get_or_insert_with(Local::now)
     }
 
